@@ -244,6 +244,7 @@ class MissingFields(JSONWizardError):
             self.fields = list(cls_kwargs.keys())
             self.missing_fields = [f.name for f in cls_fields
                                    if f.name not in self.fields
+                                   and f.init
                                    and f.default is MISSING
                                    and f.default_factory is MISSING]
 
